@@ -25,7 +25,7 @@ LEVEL = 'proof'
 ALLOWED_AXIOMS = ()
 TRUSTED_BASE = [
     'C17/Model.v is hand-written from cflib/positioning/motion_commander.py and position_hl_commander.py (with the '
-    'land() repairs F17a/F17b); tied on every run by differential evaluation on generated programs x schedules: the '
+    'repairs F17a/F17b/F17c); tied on every run by differential evaluation on generated programs x schedules: the '
     'real classes run in virtual time on exact rationals and must produce the model\'s time-stamped call sequence',
     'harness/fakes/c17_sim.py: virtual clock, fake Queue, baton scheduling of the real _SetPointThread.run (one '
     'thread at a time, hand-over only inside Queue.get / sleep / join), recording commander; exact-rational number '
@@ -41,13 +41,13 @@ ASSUMPTIONS = [
     'MotionCommander.__enter__ must succeed for the context to be entered (default_height != 0); a take_off that '
     'raises inside __enter__ is outside the statement (Python does not call __exit__)',
 ]
-PROVED = ('For every program of MotionCommander primitives (all 26 kinds incl. explicit land/take_off and a raise), every '
+PROVED = ('For every program of MotionCommander primitives (all 27 kinds incl. explicit land/take_off, user sleeps between commands and a raise), every '
           'schedule and every start time: once the with statement was entered, leaving it (normally or by any exception) '
           'ends the call log with send_stop_setpoint; send_notify_setpoint_stop at the same instant, the thread is gone '
           'and any later passage of time adds no call; the same for an explicit land(). While flying, consecutive hover '
           'setpoints (and the final stop) are at most UPDATE_PERIOD apart and the streamed height obeys '
           'z\' = z + vz*(t\'-t); each blocking primitive commands velocity*duration = requested displacement (turn/circle: '
-          'rate*duration = angle). PositionHlCommander: leaving the context ends with stop; after every completed move the '
+          'rate*duration = angle). PositionHlCommander: leaving the context ends with stop for every body (go_to raises on the ground, F17c); after every completed move the '
           'reported position is the previous one plus the displacement; every go_to targets the reported position with '
           'duration*velocity = distance.')
 NOT_PROVED = ('Floating-point rounding; byte-code-level preemption inside the setpoint thread; a take_off that raises inside '
@@ -122,7 +122,7 @@ MC_OPS = {
     'stop': ('OStopMotion', ''), 'start_turn_left': ('OStartTurnLeft', 'o'), 'start_turn_right': ('OStartTurnRight', 'o'),
     'start_circle_left': ('OStartCircleLeft', 'qo'), 'start_circle_right': ('OStartCircleRight', 'qo'),
     'start_linear_motion': ('OStartLinear', 'qqqo'), 'land': ('OLand', 'o'), 'take_off': ('OTakeOff', 'oo'),
-    'raise': ('ORaise', ''),
+    'raise': ('ORaise', ''), 'wait': ('OWait', 'q'),
 }
 HL_OPS = {
     'left': ('HLeft', 'qo'), 'right': ('HRight', 'qo'), 'forward': ('HForward', 'qo'), 'back': ('HBack', 'qo'),
@@ -255,6 +255,22 @@ def gen_mc_case(rng, quirks=True):
         return rng.choice(DIST)
     for _ in range(n):
         k = rng.random()
+        if rng.random() < 0.12:
+            # a control loop: the same non-blocking command re-issued faster than the update period
+            cmd = rng.choice([['start_forward', rng.choice(VELS)], ['start_left', rng.choice(VELS)], ['start_up', rng.choice(VELS)],
+                              ['stop'], ['start_turn_left', rng.choice(RATES)],
+                              ['start_linear_motion', '0.1', '0', rng.choice(['0', '0.1']), None],
+                              ['start_circle_right', '0.5', None]])
+            gap = rng.choice(['0.05', '0.1', '0.15', '0.19', '0.12'])
+            for _i in range(rng.choice([2, 3, 4, 6])):
+                ops.append(list(cmd))
+                ops.append(['wait', gap if rng.random() < 0.8 else rng.choice(['0.2', '0.25', '0'])])
+            if cmd[0] == 'start_up' or (cmd[0] == 'start_linear_motion' and cmd[3] != '0'):
+                h = Fraction(-1)
+            continue
+        if rng.random() < 0.10:
+            ops.append(['wait', rng.choice(['0.05', '0.1', '0.2', '0.3', '0.5', '1', '0.45'])])
+            continue
         if k < 0.30:
             name = rng.choice(['left', 'right', 'forward', 'back', 'up', 'down', 'up', 'down'])
             d = dist()
@@ -306,7 +322,7 @@ def gen_mc_case(rng, quirks=True):
         else:
             ops.append(['stop'])
     m = rng.random()
-    nb = 6 * len(ops) + 12
+    nb = 3 * len(ops) + 12
     if m < 0.25:
         sched = []
     elif m < 0.45:
@@ -402,6 +418,11 @@ def fixed_cases():
         {'kind': 'mc', 'default_height': None, 'ops': [['forward', '0.2', None]], 'sched': [0] * 30, 'epilogue': '1'},
         {'kind': 'mc', 'default_height': '0', 'ops': [], 'sched': [], 'epilogue': '1'},
         {'kind': 'mc', 'default_height': None, 'ops': [], 'sched': [], 'epilogue': '1'},
+        {'kind': 'mc', 'default_height': None, 'sched': [], 'epilogue': '1',
+         'ops': [['start_forward', '0.2'], ['wait', '0.15'], ['start_forward', '0.2'], ['wait', '0.15'],
+                 ['start_forward', '0.2'], ['wait', '0.15'], ['start_forward', '0.2'], ['wait', '0.15']]},
+        {'kind': 'mc', 'default_height': None, 'sched': [0] * 12, 'epilogue': '1',
+         'ops': [['stop'], ['wait', '0.1'], ['stop'], ['wait', '0.1'], ['stop'], ['wait', '0.3']]},
         {'kind': 'hl', 'ops': [['down', '2', None]]},                                                               # F17b
         {'kind': 'hl', 'default_landing_height': '1', 'ops': []},                                                   # F17b
         {'kind': 'hl', 'ops': [['set_default_velocity', '0'], ['up', '1', None]]},
